@@ -200,3 +200,80 @@ func VerifC03ParDAG2()      { c03Par(1, 2) }
 func VerifC03ParWorkflow2() { c03Par(2, 2) }
 func VerifC03ParPregel3()   { c03Par(0, 3) }
 func VerifC03ParWorkflow3() { c03Par(2, 3) }
+
+type c03Store struct{ m map[string][]byte }
+
+func (s *c03Store) Get(ctx context.Context, id string) ([]byte, bool, error) {
+	b, ok := s.m[id]
+	return b, ok, nil
+}
+func (s *c03Store) Set(ctx context.Context, id string, b []byte) error {
+	s.m[id] = append([]byte{}, b...)
+	return nil
+}
+
+// Eager (Workflow) run interrupted while a parallel node is still running: the drain after the interrupt collects
+// late completions; whatever the completion order, the resumed run executes every node exactly once and returns
+// the schedule-independent result.
+func c03Interrupt(after bool) {
+	ctx := context.Background()
+	vcfg("preempt", 2)
+	counts := map[string]int{}
+	body := func(key string) *Lambda {
+		return InvokableLambda(func(ctx context.Context, in map[string]any) (map[string]any, error) {
+			vyield()
+			vMu.Lock()
+			counts[key]++
+			vMu.Unlock()
+			return map[string]any{key: vsymUF("f_"+key, vFold(in))}, nil
+		})
+	}
+	x := vsymInt("x")
+	in := map[string]any{"in": x}
+	// START -> a, b ; a -> c ; b -> d ; END <- c, d
+	wf := NewWorkflow[map[string]any, map[string]any]()
+	wf.AddLambdaNode("a", body("a")).AddInput(START)
+	wf.AddLambdaNode("b", body("b")).AddInput(START)
+	wf.AddLambdaNode("c", body("c")).AddInput("a")
+	wf.AddLambdaNode("d", body("d")).AddInput("b")
+	e := wf.End()
+	e.AddInput("c", ToField("c"))
+	e.AddInput("d", ToField("d"))
+	store := &c03Store{m: map[string][]byte{}}
+	opts := []GraphCompileOption{WithCheckPointStore(store)}
+	if after {
+		opts = append(opts, WithInterruptAfterNodes([]string{"a"}))
+	} else {
+		opts = append(opts, WithInterruptBeforeNodes([]string{"c"}))
+	}
+	r, err := wf.Compile(ctx, opts...)
+	vassert(err == nil, "workflow compiles")
+	var out map[string]any
+	var rerr error
+	interrupts := 0
+	for call := 0; call < 4; call++ {
+		out, rerr = r.Invoke(ctx, in, WithCheckPointID("c03"))
+		if rerr == nil {
+			break
+		}
+		_, ok := ExtractInterruptInfo(rerr)
+		vassert(ok, "only interrupt errors under every schedule")
+		interrupts++
+	}
+	vassert(rerr == nil, "the interrupted run finishes after resuming, under every schedule")
+	vassert(interrupts == 1, "exactly one interrupt")
+	fa := map[string]any{"a": vsymUF("f_a", vFold(in))}
+	fb := map[string]any{"b": vsymUF("f_b", vFold(in))}
+	want := map[string]any{
+		"c": map[string]any{"c": vsymUF("f_c", vFold(fa))},
+		"d": map[string]any{"d": vsymUF("f_d", vFold(fb))},
+	}
+	vassert(vMapEq(out, want), "the result after resume does not depend on which parallel node was still running when the interrupt was taken")
+	for _, k := range []string{"a", "b", "c", "d"} {
+		vassert(counts[k] == 1, "node "+k+" executed exactly once over interrupt and resume")
+	}
+	vquiesce()
+}
+
+func VerifC03InterruptAfter()  { c03Interrupt(true) }
+func VerifC03InterruptBefore() { c03Interrupt(false) }
